@@ -315,6 +315,12 @@ struct Harness
             report(dom, "empty-mismatch", "slot" + std::to_string(s));
             return;
         }
+        if (v.capacity() != m.cap && rc.focus == C02)
+        {
+            // C02 speaks about memory safety within the capacity the vector *declares*; whether that is the right
+            // capacity is C01/C10/C17's business. Adopt it, so that later fills go up to what capacity() promises.
+            sl.m.cap = v.capacity();
+        }
         if (v.capacity() != m.cap)
         {
             report(dom, "capacity-mismatch", "slot" + std::to_string(s) + " capacity=" + std::to_string(v.capacity()) +
@@ -643,7 +649,7 @@ struct Harness
         long off = 0;
         if (!g_heap.canaries_intact(bad, off))
         {
-            report(pm(C02) | rc.op_domain, "canary-smashed",
+            report(pm(C02, C07) | rc.op_domain, "canary-smashed",
                    std::string("kind=") + KIND_NAMES[bad->kind] + (off < 0 ? " under" : " over"));
             return;
         }
